@@ -152,4 +152,17 @@ PROPS = {
         "not_decided": ["equality of values for collection shapes (C20 capture/apply)", "feedback inside nested graphs beyond C09 delegation",
                         "quiescence with a passive reader as a whole-run statement (only the selectors are proved)"],
     },
+    "C12": {
+        "modules": ["contracts.c12_switch"],
+        "level": "proof",
+        "design_ref": "DESIGN.md section 8, C12",
+        "trusted_base": [
+            "GraphBuilder::make_nested_graph returns a new graph instance (fresh generation); GraphValue assignment destroys the old occupant",
+            "child GraphView::start/stop/evaluate follow the graph.cpp contracts (C14/C02)",
+            "bind_branch_inputs/_output, clear_branch_output, reset_switch_output only touch bindings and the switch output",
+            "Value::equals is an equivalence on keys",
+        ],
+        "assumptions": [],
+        "not_decided": ["the output stream equals what the branch alone would produce (relational)", "output forwarding correctness (bind_branch_output)"],
+    },
 }
